@@ -13,6 +13,7 @@ package fork
 import (
 	"context"
 	"sync"
+	"sync/atomic"
 	"time"
 
 	"github.com/fogfish/golem/pipe/v2"
@@ -165,6 +166,7 @@ func FMap[A, B any](ctx context.Context, par int, in <-chan A, fmap FF[A, B]) (<
 // emitted though return channel when the end of the input channel is reached.
 func Fold[A any](ctx context.Context, par int, in <-chan A, m monoid.Monoid[A]) <-chan A {
 	var wg sync.WaitGroup
+	var aborted atomic.Bool
 	vals := make(chan A, par)
 	done := make(chan A, 1)
 
@@ -181,6 +183,7 @@ func Fold[A any](ctx context.Context, par int, in <-chan A, m monoid.Monoid[A]) 
 			acc = m.Combine(acc, x)
 			select {
 			case <-ctx.Done():
+				aborted.Store(true)
 				return
 			default:
 			}
@@ -199,7 +202,9 @@ func Fold[A any](ctx context.Context, par int, in <-chan A, m monoid.Monoid[A]) 
 		for i := 1; i <= par; i++ {
 			acc = m.Combine(acc, <-vals)
 		}
-		done <- acc
+		if !aborted.Load() {
+			done <- acc
+		}
 		close(vals)
 		close(done)
 	}()
